@@ -21,9 +21,28 @@ var (
 	cur      map[string]string
 	ObsLog   []string
 	thorough bool
+	cnt      map[string]int
 )
 
-func SetCase(inputs map[string]string) { cur = inputs; ObsLog = nil; allocLimit = -1 }
+func SetCase(inputs map[string]string) {
+	cur = inputs
+	ObsLog = nil
+	allocLimit = -1
+	cnt = map[string]int{}
+}
+
+// fresh mirrors the engine's naming of repeated inputs: name, name~1, name~2, ...
+func fresh(name string) string {
+	if cnt == nil {
+		cnt = map[string]int{}
+	}
+	n := cnt[name]
+	cnt[name] = n + 1
+	if n == 0 {
+		return name
+	}
+	return fmt.Sprintf("%s~%d", name, n)
+}
 func SetThorough(b bool)               { thorough = b }
 
 func get(name string) (string, bool) {
@@ -46,7 +65,9 @@ func getInt(name string) *big.Int {
 // ---- inputs
 
 // Bytes returns n arbitrary bytes.
-func Bytes(name string, n int) []byte {
+func Bytes(name string, n int) []byte { return bytesNamed(fresh(name), n) }
+
+func bytesNamed(name string, n int) []byte {
 	s, _ := get(name)
 	b, err := hex.DecodeString(s)
 	if err != nil {
@@ -59,6 +80,7 @@ func Bytes(name string, n int) []byte {
 
 // BytesRange returns an arbitrary byte string of length lo..hi (the length is a forked choice).
 func BytesRange(name string, lo, hi int) []byte {
+	name = fresh(name)
 	n := int(getInt(name + "#len").Int64())
 	if n < lo {
 		n = lo
@@ -66,28 +88,28 @@ func BytesRange(name string, lo, hi int) []byte {
 	if n > hi {
 		n = hi
 	}
-	return Bytes(name, n)
+	return bytesNamed(name, n)
 }
 
 func Str(name string, n int) string { return string(Bytes(name, n)) }
 
-func U8(name string) uint8   { return uint8(getInt(name).Uint64()) }
-func U16(name string) uint16 { return uint16(getInt(name).Uint64()) }
-func U32(name string) uint32 { return uint32(getInt(name).Uint64()) }
-func U64(name string) uint64 { return getInt(name).Uint64() }
-func Int(name string) int    { return int(int64(getInt(name).Uint64())) }
-func I64(name string) int64  { return int64(getInt(name).Uint64()) }
-func Bool(name string) bool  { return getInt(name).Sign() != 0 }
+func U8(name string) uint8   { return uint8(getInt(fresh(name)).Uint64()) }
+func U16(name string) uint16 { return uint16(getInt(fresh(name)).Uint64()) }
+func U32(name string) uint32 { return uint32(getInt(fresh(name)).Uint64()) }
+func U64(name string) uint64 { return getInt(fresh(name)).Uint64() }
+func Int(name string) int    { return int(int64(getInt(fresh(name)).Uint64())) }
+func I64(name string) int64  { return int64(getInt(fresh(name)).Uint64()) }
+func Bool(name string) bool  { return getInt(fresh(name)).Sign() != 0 }
 
 // Big returns an arbitrary integer 0 <= v < 2^bits.
-func Big(name string, bits int) *big.Int { return getInt(name) }
+func Big(name string, bits int) *big.Int { return getInt(fresh(name)) }
 
 // BigSigned returns an arbitrary integer -2^bits < v < 2^bits.
-func BigSigned(name string, bits int) *big.Int { return getInt(name) }
+func BigSigned(name string, bits int) *big.Int { return getInt(fresh(name)) }
 
 // Choice returns an arbitrary value in [0,n); each value is explored on its own path.
 func Choice(name string, n int) int {
-	v := int(getInt(name).Int64())
+	v := int(getInt(fresh(name)).Int64())
 	if v < 0 || v >= n {
 		return 0
 	}
@@ -226,7 +248,7 @@ func AssumeRange(b []byte, lo, hi byte) {
 
 // Digits returns a string of n arbitrary decimal digit characters.
 func Digits(name string, n int) string {
-	s, _ := get(name)
+	s, _ := get(fresh(name))
 	for len(s) < n {
 		s = "0" + s
 	}
